@@ -25,7 +25,7 @@ REQUIRED_COUNTERS = {"C17.packed_integers_enumerated": 150000}
 REQUIRED_REACH = ["time.py:to_datetime_utc", "time.py:to_datetime64", "time.py:datetime_to_iso_time_string",
                   "time.py:datetime_from_time_and_date_integers"]
 TIMEOUT = {"quick": 300, "thorough": 1800}
-N = {"quick": 10000, "thorough": 300000}
+N = {"quick": 10000, "thorough": 2000000}
 TZS = ["UTC", "PST8PDT", "IST-5:30", "NZST-12NZDT", "XXX+9:30"]
 EPOCH = datetime(1970, 1, 1, tzinfo=timezone.utc)
 MAX_US = int((datetime(2100, 12, 31, 23, 59, 59, tzinfo=timezone.utc) - EPOCH).total_seconds()) * 10 ** 6
